@@ -152,10 +152,11 @@ def canon_tree(node):
 
 def canon_value(obj, strip=frozenset()):
     import enum
-    if obj is None or isinstance(obj, (bool, int, str)):
+    if obj is None or isinstance(obj, (bool, str)):
         return obj
-    if isinstance(obj, float):
-        return ('ms', round(obj * 1000))
+    if isinstance(obj, (int, float)):
+        # ints and floats are one numeric space (a duration of 0 s may be held as 0 or 0.0); resolution 1 ms
+        return ('n', round(obj * 1000))
     if isinstance(obj, Decimal):
         return ('dec', str(obj.normalize()) if obj == obj else 'nan')
     if isinstance(obj, enum.Enum):
